@@ -812,7 +812,9 @@ class Dict(dict, base.Symbolic, pg_typing.CustomTyping):
       # Make sure that the cleared dict is acceptable (no required field is
       # left without a value) before anything is removed.
       value_spec.schema.apply(
-          {}, allow_partial=self._allow_partial, root_path=self.sym_path)
+          {},
+          allow_partial=base.accepts_partial(self),
+          root_path=self.sym_path)
     self._value_spec = None
     old_items = list(self.sym_items())
     # Detach the removed values from the object tree.
